@@ -117,7 +117,9 @@ def deep_rejections(res, tier):
     # every text string of two text-rich envelopes replaced by strings that are long and *almost* of a familiar shape (host names, versions,
     # identifiers, paths): a validating pattern with nested repetition answers these in exponential time
     probes = ["a" * 44 + "_", "wireless.nordicsemiconductor.exampl_", "cellular-iot.long-vendor-name.nordicsemi.example!", "a-" * 26 + "!", "1." * 30 + "x",
-              "ab" * 20 + ".ab" * 10 + "\u00e9", " " * 50 + "x", "a" * 300 + "!", "/a" * 40 + "\\", "0" * 60 + "g"]
+              "ab" * 20 + ".ab" * 10 + "\u00e9", " " * 50 + "x", "a" * 300 + "!", "/a" * 40 + "\\", "0" * 60 + "g",
+              "application_core_firmware_image_v1.2.3 (1).bin", "http://example.com/" + "a" * 40 + " b", "file://" + "ab" * 20 + " ", "a" * 45 + "\n",
+              "a" * 45 + "\tb", "scheme:" + "x" * 40 + "%zz", "http://[" + "1:" * 30 + "]g", "a" * 40 + "?" + "b" * 40 + "#" + "c" * 40 + " "]
     text_envs = []
     for lang_map in ({"suit-text-manifest-description": "d", "suit-text-update-description": "u", '["M", 1]': {
             "suit-text-vendor-name": "v", "suit-text-model-name": "m", "suit-text-vendor-domain": "nordicsemi.com", "suit-text-model-info": "i",
